@@ -130,7 +130,16 @@ def setup(E):
         f"{M}:Entry.combine",
         params={"self": "Entry", "other": "Entry", "combinator": UFun("comb", [CAND, CAND], CAND)},
         returns="Entry",
-        ensures=comb_clauses(""),
+        ensures=comb_clauses("") + [
+            # the same tag clauses in a form without existentials (consequences of the clauses above, stated for the callers):
+            # every optimal tagged pair is retained under ALL; some pair being optimal and tagged forces a retained tag under ANY
+            ("tags-all-complete", f"""implies(self._retention_policy == RetentionPolicy.ALL, forall(lambda a, b: implies(
+                   a in self._infos and b in other._infos and {COMB}.value == result._value and {COMB}.info is not None and tag_truthy(the({COMB}.info)),
+                   the({COMB}.info) in result._infos), Tag, Tag))"""),
+            ("tags-any-nonempty-forall", f"""implies(self._retention_policy == RetentionPolicy.ANY, forall(lambda a, b: implies(
+                   a in self._infos and b in other._infos and {COMB}.value == result._value and {COMB}.info is not None and tag_truthy(the({COMB}.info)),
+                   exists(lambda t: t in result._infos, Tag)), Tag, Tag))"""),
+        ],
         globals=G,
         loops={0: LoopSpec(
             header="for (ours, theirs) in product(self._infos, other.infos())", index="k", length="n", seq="P",
